@@ -133,9 +133,9 @@ def model_check(ctx, tol):
     def work(j):
         kind, key, cfgp, what = j
         if kind == 'sim':
-            return j, ctx.mc('MC_RangeLock', cfgp, timeout=1500, workers=2, simulate=400, depth=40, xmx='4g', env=dict(JOPTS),
+            return j, ctx.mc('MC_RangeLock', cfgp, timeout=3000, workers=2, simulate=400, depth=40, xmx='4g', env=dict(JOPTS),
                              extra_args=('-seed', str(ctx.seed)), tag=os.path.basename(cfgp).replace('.cfg', ''))
-        return j, ctx.mc('MC_RangeLock', cfgp, timeout=1500, workers=4 if kind != 'pass' else 6, count=(kind == 'pass'), xmx='6g', env=dict(JOPTS),
+        return j, ctx.mc('MC_RangeLock', cfgp, timeout=3000, workers=4 if kind != 'pass' else 6, count=(kind == 'pass'), xmx='6g', env=dict(JOPTS),
                          tag=os.path.basename(cfgp).replace('.cfg', ''))
     with ThreadPoolExecutor(max_workers=len(jobs)) as ex:
         results = list(ex.map(work, jobs))
@@ -212,7 +212,7 @@ def judge_rows(ctx, trace, tol, tag, chunk=30000, par=10):
     def work(c):
         p, n, start = c
         e = dict(env); e['TRACE'] = p
-        r = ctx.tlc('Trace_RangeLockSeq', 'Trace_RangeLockSeq.cfg', workers=1, timeout=2400, env=e, xmx='3g', tag=f'seq_{tag}_{start // chunk}')
+        r = ctx.tlc('Trace_RangeLockSeq', 'Trace_RangeLockSeq.cfg', workers=1, timeout=3600, env=e, xmx='3g', tag=f'seq_{tag}_{start // chunk}')
         return c, r
     with ThreadPoolExecutor(max_workers=par) as ex:
         results = list(ex.map(work, chunks))
@@ -333,7 +333,7 @@ def run_conc(ctx, rows, tol):
             break
     with ThreadPoolExecutor(max_workers=1 + len(tol)) as pool:
         # pass 1: the property plus the switches of the recorded findings: whatever is still rejected is new
-        f1 = pool.submit(tracecheck.validate, ctx, 'Trace_RangeLockA', 'Trace_RangeLockA.cfg', rows, extra_env=kf_all, tagbase='rlA', max_rej=4, par=6)
+        f1 = pool.submit(tracecheck.validate, ctx, 'Trace_RangeLockA', 'Trace_RangeLockA.cfg', rows, extra_env=kf_all, tagbase='rlA', max_rej=4, par=6, timeout=3000)
         # pass 2: which recorded findings were needed?  (one switch off at a time; an execution that is now rejected needed it)
         f2 = {fid: pool.submit(_first_rejected, ctx, ex2, {k: v for k, v in kf_all.items() if k != 'KF_' + fid}, f'rlA_no{fid}') for fid in sorted(tol)}
         acc, rejs, n = f1.result()
@@ -359,7 +359,7 @@ def _first_rejected(ctx, execs, env, tag, chunk_events=2500, par=4):
 
     def work(ci):
         flat = [r for e in chunks[ci] for r in e]
-        r = tracecheck._run(ctx, 'Trace_RangeLockA', 'Trace_RangeLockA.cfg', flat, f'{tag}_c{ci}', 900, env)
+        r = tracecheck._run(ctx, 'Trace_RangeLockA', 'Trace_RangeLockA.cfg', flat, f'{tag}_c{ci}', 3000, env)
         if r['accepted']:
             return None
         k, pos = r['maxl'] or 1, 0
@@ -417,7 +417,7 @@ def replay(ctx, path):
     else:
         rows = vtlib.read_ndjson(path)
         kf_all = {'KF_' + k: '1' for k in tol}
-        acc, rejs, n = tracecheck.validate(ctx, 'Trace_RangeLockA', 'Trace_RangeLockA.cfg', rows, extra_env=kf_all, tagbase='replay')
+        acc, rejs, n = tracecheck.validate(ctx, 'Trace_RangeLockA', 'Trace_RangeLockA.cfg', rows, extra_env=kf_all, tagbase='replay', timeout=3000)
         tracecheck.report(ctx, rejs, 'replay', name='replay')
         bad = {id(rj['exec'][0]) for rj in rejs}
         good = [e for e in tracecheck.split_execs(rows) if id(e[0]) not in bad]
